@@ -2,7 +2,8 @@
 # usage: tools/mutest.sh <patch.diff> <Cxx> [tier]   -- apply a seeded change to /repo, run one check, undo the change
 set -u
 P=$1; C=$2; T=${3:-quick}
-git -C /repo apply "$P" || { echo "patch does not apply"; exit 9; }
+git -C /repo apply "$P" 2>/dev/null || git -C /repo apply -3 "$P" 2>/dev/null || (cd /repo && patch -p1 -s --fuzz=3 --no-backup-if-mismatch < "$P") || { echo "patch does not apply"; git -C /repo checkout -- .; exit 9; }
+git -C /repo reset -q
 (cd /verif && ./check "$C" --tier "$T" >/tmp/mutest.$$.out 2>/tmp/mutest.$$.err); rc=$?
 git -C /repo checkout -- . ; git -C /repo clean -fdq
 grep -E '^(VIOLATION|KNOWN-FINDING|  sig=)' /tmp/mutest.$$.out | cut -c1-260 | head -12
